@@ -15,6 +15,7 @@ are fewer), ref -1 = a never-issued id, a STRING ref = that literal string as se
 issued: "", "%s", …).  ["X", None] calls cleanup_expired() with its default max_age (read from
 the signature).  ["C", client, version, metadata] passes the optional metadata argument.
 ["R", ref, None, id] dispatches a message WITHOUT a method (a response-shaped message).
+["B", n, client, version] is n consecutive create_session(client, version) calls reported as ONE step (large stores).
 ["I", ref, spec, None] is an initialize WITHOUT id (the session it leaves behind is found by comparing
 list_sessions() before and after).  case["supply"] = [k, …] replaces the id supply: the session manager
 becomes a subclass of the real one whose generate_session_id() hands out "scripted-k" in that order
@@ -126,6 +127,22 @@ def new_handler():
     async def h_raises_recursion(message, session_id):
         raise RecursionError("deep")
 
+    async def h_reenter(message, session_id):
+        # re-entrancy: nested dispatches on the same handler with the same session id, then an answer
+        from chuk_mcp.protocol.messages.json_rpc_message import JSONRPCMessage as Legacy
+
+        await ph.handle_message(Legacy.model_validate({"jsonrpc": "2.0", "id": "nested", "method": "ping"}), session_id)
+        await ph.handle_message(Legacy.model_validate({"jsonrpc": "2.0", "method": "notifications/cancelled"}), session_id)
+        if getattr(message, "id", None) is None:
+            return None, None
+        return ph.create_response(message.id, {"ok": 1}), None
+
+    async def h_reenter_raises(message, session_id):
+        await h_reenter(message, session_id)
+        raise RuntimeError("after nested dispatches")
+
+    ph.register_method("verif/reenter", h_reenter)
+    ph.register_method("verif/reenter-then-raises", h_reenter_raises)
     ph.register_method("verif/raises-keyerror", h_raises_key)
     ph.register_method("verif/raises-unprintable", h_raises_unprintable)
     ph.register_method("verif/raises-recursion", h_raises_recursion)
@@ -155,6 +172,10 @@ def kind_of(method, msgid):
         return "handlerRaised"
     if method == "verif/nonsense":
         return "handlerNonsense"
+    if method == "verif/reenter-then-raises":
+        return "handlerRaised"
+    if method == "verif/reenter":
+        return "handlerReturned"
     if method in ("ping", "verif/answers"):
         return "handlerReturned" if msgid is not None else "handlerRaised"  # no envelope for a null id
     if method in ("notifications/initialized", "verif/silent"):
@@ -212,10 +233,20 @@ def _run_case(case):
     steps = []
     obs = {"steps": steps, "harness_error": None}
 
+    index_of: dict = {}
+
     def number(sid):
-        if sid in ids:
-            return ids.index(sid), False
+        try:
+            k = index_of.get(sid)
+        except TypeError:  # an unhashable id: fall back to the list
+            k = ids.index(sid) if sid in ids else None
+        if k is not None:
+            return k, False
         ids.append(sid)
+        try:
+            index_of[sid] = len(ids) - 1
+        except TypeError:
+            pass
         return len(ids) - 1, True
 
     def resolve(ref):
@@ -271,6 +302,14 @@ def _run_case(case):
                     st["out"] = ["sid", k]
                     st["fresh"] = fresh
                     st["idtype"] = type(sid).__name__
+                elif code == "B":
+                    first, all_fresh = len(ids), True
+                    for _ in range(op[1]):
+                        k, fresh = number(mgr.create_session(copy.deepcopy(op[2]), op[3]))
+                        all_fresh = all_fresh and fresh and k == len(ids) - 1
+                    st["out"] = ["bulk", op[1]]
+                    st["first"] = first
+                    st["fresh"] = all_fresh
                 elif code == "G":
                     st["out"] = ["rec", _rec(mgr.get_session(resolve(op[1])))]
                 elif code == "U":
@@ -417,6 +456,11 @@ def model_line(case, obs):
         if code == "C":
             ops.append([now, "C", st["out"][1], op[1], op[2]])
             issued = max(issued, st["out"][1] + 1)
+        elif code == "B":
+            if not st.get("fresh"):
+                return None  # a repeated id inside a bulk step: the oracle reports it
+            ops.append([now, "B", st["first"], op[1], op[2], op[3]])
+            issued = max(issued, st["first"] + op[1])
         elif code in ("G", "U", "D"):
             ops.append([now, code, _ref_num(op[1], issued)])
         elif code == "X":
